@@ -5,7 +5,11 @@
 //! precisions), `mulprim_fi|mulprim_if|divprim_fi|divprim_if <base> <mode> <p> <sig1> <exp1> <n> 0` (primitive /
 //! IBig operand n), `rfract <base> <mode> <k> <integer> <fract>` -> `ok <NoOp|AddOne|SubOne>` (Round::round_fract
 //! called directly: the f32 pre-filter against the exact comparison).
-use dashu_base::SquareRoot;
+//! round 3: `addl subl mull divl sqrl cubicl sqrtl invl` = the Context methods with operands of ANY length (the
+//! Repr operands need not fit the precision); `rem` (Context::rem), `rem_vv|vr|rv|rr|assign` (FBig % FBig),
+//! `remeuc_*` (rem_euclid), `diveuc_*` -> `ok <q>`, `divremeuc_*` -> `ok <q> <sig> <exp> NoFlag <prec>`;
+//! `finv finv_r` (Inverse for FBig / &FBig), `addprim_fi|addprim_if|subprim_fi|subprim_if`.
+use dashu_base::{DivEuclid, DivRemEuclid, Inverse, RemEuclid, SquareRoot};
 use dashu_float::round::Round;
 use hlib::*;
 use std::convert::TryFrom;
@@ -25,14 +29,34 @@ fn run(op: &str, a: &[&str]) -> String {
         let fy = || FBig::<R, B>::from_repr(y.clone(), ctx);
         let val = |v: FBig<R, B>| format!("ok {} NoFlag {:x}", hrepr(v.repr()), v.precision());
         match op {
-            "add" => format!("ok {}", hrounded(&ctx.add(&x, &y))),
-            "sub" => format!("ok {}", hrounded(&ctx.sub(&x, &y))),
-            "mul" => format!("ok {}", hrounded(&ctx.mul(&x, &y))),
-            "div" => format!("ok {}", hrounded(&ctx.div(&x, &y))),
-            "sqr" => format!("ok {}", hrounded(&ctx.sqr(&x))),
-            "cubic" => format!("ok {}", hrounded(&ctx.cubic(&x))),
-            "sqrt" => format!("ok {}", hrounded(&ctx.sqrt(&x))),
-            "inv" => format!("ok {}", hrounded(&ctx.inv(&x))),
+            "add" | "addl" => format!("ok {}", hrounded(&ctx.add(&x, &y))),
+            "sub" | "subl" => format!("ok {}", hrounded(&ctx.sub(&x, &y))),
+            "mul" | "mull" => format!("ok {}", hrounded(&ctx.mul(&x, &y))),
+            "div" | "divl" => format!("ok {}", hrounded(&ctx.div(&x, &y))),
+            "sqr" | "sqrl" => format!("ok {}", hrounded(&ctx.sqr(&x))),
+            "cubic" | "cubicl" => format!("ok {}", hrounded(&ctx.cubic(&x))),
+            "sqrt" | "sqrtl" => format!("ok {}", hrounded(&ctx.sqrt(&x))),
+            "inv" | "invl" => format!("ok {}", hrounded(&ctx.inv(&x))),
+            "rem" => format!("ok {}", hrounded(&ctx.rem(&x, &y))),
+            "rem_vv" => val(fx() % fy()),
+            "rem_vr" => val(fx() % &fy()),
+            "rem_rv" => val(&fx() % fy()),
+            "rem_rr" => val(&fx() % &fy()),
+            "rem_assign" => { let mut v = fx(); v %= fy(); val(v) }
+            "remeuc_vv" => val(fx().rem_euclid(fy())),
+            "remeuc_vr" => val(fx().rem_euclid(&fy())),
+            "remeuc_rv" => val((&fx()).rem_euclid(fy())),
+            "remeuc_rr" => val((&fx()).rem_euclid(&fy())),
+            "diveuc_vv" => format!("ok {}", hi(&fx().div_euclid(fy()))),
+            "diveuc_vr" => format!("ok {}", hi(&fx().div_euclid(&fy()))),
+            "diveuc_rv" => format!("ok {}", hi(&(&fx()).div_euclid(fy()))),
+            "diveuc_rr" => format!("ok {}", hi(&(&fx()).div_euclid(&fy()))),
+            "divremeuc_vv" => { let (q, r) = fx().div_rem_euclid(fy()); format!("ok {} {} NoFlag {:x}", hi(&q), hrepr(r.repr()), r.precision()) }
+            "divremeuc_vr" => { let (q, r) = fx().div_rem_euclid(&fy()); format!("ok {} {} NoFlag {:x}", hi(&q), hrepr(r.repr()), r.precision()) }
+            "divremeuc_rv" => { let (q, r) = (&fx()).div_rem_euclid(fy()); format!("ok {} {} NoFlag {:x}", hi(&q), hrepr(r.repr()), r.precision()) }
+            "divremeuc_rr" => { let (q, r) = (&fx()).div_rem_euclid(&fy()); format!("ok {} {} NoFlag {:x}", hi(&q), hrepr(r.repr()), r.precision()) }
+            "finv" => val(fx().inv()),
+            "finv_r" => val((&fx()).inv()),
             // operators, every ownership form
             "add_vv" => val(fx() + fy()),
             "add_vr" => val(fx() + &fy()),
@@ -73,10 +97,18 @@ fn run(op: &str, a: &[&str]) -> String {
                 }
             }
             // primitive / big-integer operand, converted by FBig::from (precision = its digit count, at least 1)
-            "mulprim_fi" | "mulprim_if" | "divprim_fi" | "divprim_if" => {
+            "mulprim_fi" | "mulprim_if" | "divprim_fi" | "divprim_if" | "addprim_fi" | "addprim_if" | "subprim_fi" | "subprim_if" => {
                 let n = ibig(a[5]);
                 let l = fx();
                 match (op, i64::try_from(&n)) {
+                    ("addprim_fi", Ok(k)) => val(l + k),
+                    ("addprim_fi", Err(_)) => val(&l + &n),
+                    ("addprim_if", Ok(k)) => val(k + &l),
+                    ("addprim_if", Err(_)) => val(n + l),
+                    ("subprim_fi", Ok(k)) => val(&l - k),
+                    ("subprim_fi", Err(_)) => val(l - n),
+                    ("subprim_if", Ok(k)) => val(k - l),
+                    ("subprim_if", Err(_)) => val(&n - &l),
                     ("mulprim_fi", Ok(k)) => val(l * k),
                     ("mulprim_fi", Err(_)) => val(&l * &n),
                     ("mulprim_if", Ok(k)) => val(k * &l),
